@@ -82,6 +82,11 @@ def snapshots(c):
     faults = {}
     out = []
     for op in c["ops"]:
+        if op[0] == "nested":
+            if c.get("engine") and c.get("peek"):
+                out.append((tree, pd, pv, op[2], dict(faults)))
+            out.append((tree, pd, pv, op[1], dict(faults)))
+            continue
         if op[0] in ("get", "race"):
             if op[0] == "race":            # the file changes DURING this call: the call itself is not judged
                 tree = apply_op(tree, ("edit", op[2], op[3]))
@@ -120,7 +125,28 @@ def mutate(v):
         v.add("scribbled")
 
 
-def config(c, root, cache_size):
+class Peek:
+    """the function `peek` offered to the templates (template_config.context): when armed it makes ONE re-entrant
+    get_data call for another system on the same source - an overlapping call without threads"""
+    def __init__(self):
+        self.armed = None
+        self.result = None
+
+    def __call__(self):
+        if self.armed is not None:
+            src, sysid, pd, pv = self.armed
+            self.armed = None
+            self.result = get(src, sysid, pd, pv)
+        return ""
+
+
+def config(c, root, cache_size, peek=None):
+    if c.get("peek"):
+        return dict(_config(c, root, cache_size), template_config={"context": {"peek": peek or (lambda: "")}})
+    return _config(c, root, cache_size)
+
+
+def _config(c, root, cache_size):
     return {"root_dir": root, "template": "jinja" if c["engine"] else None, "merge_lists": c["ml"], "merge_sets": c["ms"],
             "allow_empty_top": c["allow_empty"], "cache_size": cache_size}
 
@@ -225,9 +251,10 @@ def run_real(c):
         yamlfs.materialise(tree, root)
         # one long-lived source - or two over the same directory serving the gets alternately (caching is transparent,
         # so which of them answers, and what the other one has cached meanwhile, must not matter)
-        srcs = [YamlTargetSource(config(c, root, c["cache_size"]))]
+        peek = Peek()
+        srcs = [YamlTargetSource(config(c, root, c["cache_size"], peek))]
         if c.get("nsrc", 1) == 2:
-            srcs.append(YamlTargetSource(config(c, root, 1)))
+            srcs.append(YamlTargetSource(config(c, root, 1, peek)))
         ngets = 0
         pd, pv = yamlfs.PRECEDING[0]
         faults = {}
@@ -243,6 +270,20 @@ def run_real(c):
                         mutate(r[1])                      # isolation: must not show up in any later result
                     f = get(YamlTargetSource(config(c, root, 0)), op[1], pd, pv)
                 out.append((snap, f))
+            elif op[0] == "nested":
+                # get_data(A) during which - while a template is rendered - get_data(B) is called on the same source
+                peek.armed, peek.result = (src, op[2], pd, pv), None
+                ra = get(src, op[1], pd, pv)
+                peek.armed = None
+                pairs = []
+                if peek.result is not None:
+                    pairs.append((op[2], peek.result))
+                pairs.append((op[1], ra))
+                for sysid, r in pairs:
+                    snap = copy.deepcopy(r)
+                    if r[0] == "ok":
+                        mutate(r[1])
+                    out.append((snap, get(YamlTargetSource(config(c, root, 0)), sysid, pd, pv)))
             elif op[0] == "race":
                 with RaceEdit(root, op[2], op[3]):
                     get(src, op[1], pd, pv)           # old or new content: both are legitimate for this call
@@ -524,6 +565,14 @@ class C12(Check):
                        ("inplace", rel, new), ("get", "s2")]
                 for cs in (0, 64):
                     yield {"base": b, "ops": ops, "cache_size": cs, "engine": engine, "ml": False, "ms": True, "allow_empty": False}
+        # overlapping calls for different systems on one source without threads: while top.yaml is rendered for system A a
+        # function offered to the templates calls get_data for system B on the same source
+        nb = {"top.yaml": "{{ peek() }}'*': [common]\n's1': [one]\n's2': [two]\n", "common.yaml": "who: {{ id }}\n", "one.yaml": "only_1: 1\n",
+              "two.yaml": "only_2: 2\ninclude: [common]\n"}
+        for cs in (64, 1, 0):
+            yield {"base": nb, "ops": [("nested", "s1", "s2"), ("get", "s1"), ("get", "s2"), ("edit", "one.yaml", "only_1: 3\n"),
+                                       ("nested", "s2", "s1"), ("get", "s1"), ("get", "s2")],
+                   "cache_size": cs, "engine": True, "ml": False, "ms": True, "allow_empty": False, "peek": True}
         # text a template engine would treat as markup, with templating switched off (template: None through the factory)
         mk = {"top.yaml": "'*': [a]\n# {% if id == 's1' %}\n's1': [b]\n# {% endif %}\n", "a.yaml": "k: '{{ later }}'\ninclude: [b]\n",
               "b.yaml": "m: \"{# note #}x\"\n"}
